@@ -15,6 +15,12 @@
 //! Sub-checks:
 //!   gen_triples   generated worlds (<= 16 ops, 3 replicas, Causal/Eventual mix) x <= 8 triples,
 //!                 optionally with one operand replaced by the merge of two pool values
+//!   shard_fold    every kind of pool value (and fresh, unmutated with_crdt counters/sets, stamp
+//!                 (0, creator)) delivered through `ShardReplicaState::apply_remote_delta` to
+//!                 FRESH replicas whose ids lie below / at / above the creators', as first and as
+//!                 later delta, in two orders: after every step `get_replicated` must equal the
+//!                 fold of `merge` over the delivered values (first contact = merge with a
+//!                 neutral element), and the two orders must agree
 //!   enum_worlds2  ALL words of length L over an 18-symbol op alphabet (2 replicas) and, for
 //!                 each world, ALL pairs/triples of its pool (L = 4 quick, 5 thorough)
 //!   enum_worlds3  the same with 3 replicas, 30 symbols (L = 3 quick, 4 thorough)
@@ -554,6 +560,189 @@ fn check_case(case: &Case, ctx: &mut CaseCtx<'_>) -> Result<(), String> {
 }
 
 // ---------------------------------------------------------------------------------------
+// the shard entry point: apply_remote_delta on fresh replicas = fold of merge
+// ---------------------------------------------------------------------------------------
+
+#[derive(Clone, Debug, Serialize, Deserialize)]
+enum Dv {
+    /// a value of the world's pool for key "k" (index mapped monotonically)
+    Pool(u16),
+    /// `ReplicatedValue::with_crdt(<empty G/PN counter, G/OR set>, creator)`: never mutated, stamp (0, creator)
+    Fresh { kind: u8, creator: u8 },
+}
+
+#[derive(Clone, Debug, Serialize, Deserialize)]
+struct FoldCase {
+    world: World,
+    /// ids (1..=5) and modes of the two fresh receiving replicas; the writers are 1..=3
+    target: (u8, u8),
+    causal: (bool, bool),
+    deliveries: Vec<Dv>,
+    /// sort keys: the second replica receives the deliveries ordered by (perm[i], i)
+    perm: Vec<u16>,
+}
+
+fn fresh_shard(id: u8, causal: bool) -> ShardReplicaState {
+    ShardReplicaState::new(
+        ReplicaId::new(1 + (id % 5) as u64),
+        if causal { ConsistencyLevel::Causal } else { ConsistencyLevel::Eventual },
+    )
+}
+
+/// Deliver `vals` in order through `apply_remote_delta`; after every step the stored value must
+/// be the left fold of `merge` over what was delivered so far (step 0: the value itself).
+fn deliver_and_check(
+    shard: &mut ShardReplicaState,
+    vals: &[&ReplicatedValue],
+    ctx: &mut CaseCtx<'_>,
+) -> Result<Option<ReplicatedValue>, String> {
+    let me = shard.replica_id.0;
+    let mut want: Option<ReplicatedValue> = None;
+    for (i, v) in vals.iter().enumerate() {
+        let w = match &want {
+            None => (*v).clone(),
+            Some(acc) => acc.merge(v),
+        };
+        if i == 0 {
+            ctx.label(&format!("first_delta_kind:{}", v.crdt.type_name()));
+            if v.timestamp.time == 0 {
+                ctx.label(match me.cmp(&v.timestamp.replica_id.0) {
+                    std::cmp::Ordering::Less => "first_delta_stamp_time0:receiver_id_below_creator",
+                    std::cmp::Ordering::Equal => "first_delta_stamp_time0:receiver_id_equals_creator",
+                    std::cmp::Ordering::Greater => "first_delta_stamp_time0:receiver_id_above_creator",
+                });
+            }
+        } else if v.timestamp.time == 0 {
+            ctx.label("later_delta_stamp_time0");
+        }
+        shard.apply_remote_delta(ReplicationDelta::new(
+            KEYS[0].to_string(),
+            (*v).clone(),
+            v.timestamp.replica_id,
+        ));
+        let got = shard.get_replicated(KEYS[0]);
+        let same = got.map(|g| peer_view(g) == peer_view(&w)).unwrap_or(false);
+        if !same {
+            let (comp, x, y) = match got {
+                Some(g) => first_diff(g, &w)
+                    .into_iter()
+                    .next()
+                    .map(|(n, x, y)| (n, x.to_string(), y.to_string()))
+                    .unwrap_or(("?", String::new(), String::new())),
+                None => ("(key absent)", "-".to_string(), "-".to_string()),
+            };
+            return Err(format!(
+                "apply_remote_delta on replica r{} (fresh before this sequence): after delivery #{} ({}) get_replicated differs from the fold of merge over the delivered values in component '{}':\n  stored.{} = {}\n  fold.{}   = {}\n  delivered #{}: {}\n  stored: {}\n  fold:   {}\n  all deliveries: {:?}",
+                me,
+                i,
+                if i == 0 { "the first delta for the key: must be adopted as is" } else { "a later delta: must be merged into the stored value" },
+                comp, comp, x, comp, y,
+                i, show_val(v),
+                got.map(show_val).unwrap_or_else(|| "absent".to_string()),
+                show_val(&w),
+                vals.iter().map(|v| show_val(v)).collect::<Vec<_>>()
+            ));
+        }
+        want = Some(w);
+    }
+    Ok(want)
+}
+
+fn check_fold(case: &FoldCase, ctx: &mut CaseCtx<'_>) -> Result<(), String> {
+    let snaps = run_world(&case.world);
+    let pool: Vec<&Snap> = snaps.iter().filter(|s| s.key == 0).collect();
+    let mut owned: Vec<ReplicatedValue> = Vec::new();
+    for d in &case.deliveries {
+        match d {
+            Dv::Pool(i) => {
+                if !pool.is_empty() {
+                    owned.push(pool[(*i as usize * pool.len()) >> 16].value.clone());
+                }
+            }
+            Dv::Fresh { kind, creator } => {
+                ctx.label("fresh_unmutated_with_crdt_value");
+                owned.push(ReplicatedValue::with_crdt(
+                    new_of_kind(*kind % 4),
+                    ReplicaId::new(1 + (*creator % NREP) as u64),
+                ));
+            }
+        }
+    }
+    if owned.is_empty() {
+        ctx.label("nothing_delivered");
+        return Ok(());
+    }
+    let vals: Vec<&ReplicatedValue> = owned.iter().collect();
+    let mut order: Vec<usize> = (0..vals.len()).collect();
+    order.sort_by_key(|i| (case.perm.get(*i).copied().unwrap_or(0), *i));
+    let vals2: Vec<&ReplicatedValue> = order.iter().map(|i| vals[*i]).collect();
+
+    let mut s1 = fresh_shard(case.target.0, case.causal.0);
+    let mut s2 = fresh_shard(case.target.1, case.causal.1);
+    let r1 = deliver_and_check(&mut s1, &vals, ctx)?.expect("non-empty");
+    let r2 = deliver_and_check(&mut s2, &vals2, ctx)?.expect("non-empty");
+    ctx.add_evaluations(2 * vals.len() as u64);
+
+    // the two replicas received the same values (in two orders): same state, up to the listed
+    // merge findings
+    let kinds: std::collections::BTreeSet<u8> = vals.iter().map(|v| kind_of(&v.crdt)).collect();
+    let mut tol = Tol::default();
+    for (name, x, y) in first_diff(&r1, &r2) {
+        let tolerated = name == "crdt" && kinds.len() > 1 && tol.tolerate(ctx, KF_MISMATCH);
+        if !tolerated {
+            return Err(format!(
+                "two fresh replicas (r{}, r{}) that received the same values in two orders differ in component '{}':\n  first:  {}\n  second: {}\n  deliveries: {:?}\n  second order: {:?}",
+                s1.replica_id.0, s2.replica_id.0, name, x, y,
+                vals.iter().map(|v| show_val(v)).collect::<Vec<_>>(),
+                order
+            ));
+        }
+    }
+    if kinds.len() > 1 {
+        ctx.label("mixed_kinds_delivered");
+    }
+    let distinct: std::collections::BTreeSet<String> = vals.iter().map(|v| show_val(v)).collect();
+    let non_lww = vals.iter().any(|v| kind_of(&v.crdt) < 4);
+    if distinct.len() >= 2 || non_lww {
+        ctx.nontrivial(&(
+            s1.replica_id.0,
+            s2.replica_id.0,
+            vals.iter().map(|v| show_val(v)).collect::<Vec<_>>(),
+            order,
+        ));
+    }
+    Ok(())
+}
+
+fn fold_strategy() -> impl Strategy<Value = FoldCase> {
+    let dv = prop_oneof![
+        5 => any::<u16>().prop_map(Dv::Pool),
+        1 => (0u8..4, 0u8..NREP).prop_map(|(kind, creator)| Dv::Fresh { kind, creator }),
+    ];
+    // worlds rich in counters/sets: the generic op mix plus extra Crdt ops
+    let op = prop_oneof![
+        3 => op_strategy(),
+        2 => (0u8..NREP, 0u8..4, 0u8..3, 0u8..3, prop::bool::weighted(0.3))
+            .prop_map(|(r, kind, act, arg, stamp)| Op::Crdt { r, key: 0, kind, act, arg, stamp }),
+    ];
+    (
+        0u8..8,
+        proptest::collection::vec(op, 1..13),
+        (0u8..5, 0u8..5),
+        (any::<bool>(), any::<bool>()),
+        proptest::collection::vec(dv, 1..6),
+        proptest::collection::vec(any::<u16>(), 0..6),
+    )
+        .prop_map(|(causal_mask, ops, target, causal, deliveries, perm)| FoldCase {
+            world: World { causal: causal_mask, ops },
+            target,
+            causal,
+            deliveries,
+            perm,
+        })
+}
+
+// ---------------------------------------------------------------------------------------
 // enumerated worlds
 // ---------------------------------------------------------------------------------------
 
@@ -611,7 +800,22 @@ fn check_enum(case: &EnumCase, alpha: &[Op], ctx: &mut CaseCtx<'_>) -> Result<()
             }
         }
     }
-    ctx.add_evaluations((n * n * n) as u64);
+    // the shard entry point on fresh replicas with ids 1..=4 (writers are 1..=2 or 1..=3): every
+    // value as first delta, every ordered pair as first + later delta
+    for (ia, a) in pool.iter().enumerate() {
+        for t in 0u8..4 {
+            let mut sh = fresh_shard(t, t % 2 == 0);
+            deliver_and_check(&mut sh, &[&a.value], ctx).map_err(|e| format!("[a=#{}] {}", ia, e))?;
+        }
+        for (ib, b) in pool.iter().enumerate() {
+            for t in [0u8, 3] {
+                let mut sh = fresh_shard(t, false);
+                deliver_and_check(&mut sh, &[&a.value, &b.value], ctx)
+                    .map_err(|e| format!("[a=#{} b=#{}] {}", ia, ib, e))?;
+            }
+        }
+    }
+    ctx.add_evaluations((n * n * n + 4 * n + 2 * n * n) as u64);
     if nt {
         ctx.nontrivial(&case.word);
     }
@@ -702,11 +906,17 @@ fn main() {
     );
     s.run_cases("gen_triples", s.scale(200_000, 6_000_000), case_strategy, check_case);
 
+    s.describe_check(
+        "shard_fold",
+        "1-5 values (pool values of every kind incl. counters/sets with stamp (0, creator), and fresh unmutated with_crdt values) delivered through apply_remote_delta to two fresh replicas with ids 1..=5 (writers 1..=3) in two orders: after every delivery get_replicated = left fold of merge over the delivered values; both replicas agree",
+    );
+    s.run_cases("shard_fold", s.scale(40_000, 2_000_000), fold_strategy, check_fold);
+
     // ---- exhaustive bounded universes
     let (len2, len3) = if s.thorough() { (5, 4) } else { (4, 3) };
     let alpha2 = alphabet(2);
     let alpha3 = alphabet(3);
-    let rule = "every op word of the fixed length over {SET x, SET y PX, DEL, HSET f, HSET g, HDEL f, gossip from each other replica, GCounter incr (stamped), ORSet add (with_crdt stamp)} x replicas (r1 Causal, others Eventual); for each world every value, ordered pair and ordered triple of its pool (pools of all shorter words are sub-pools)";
+    let rule = "every op word of the fixed length over {SET x, SET y PX, DEL, HSET f, HSET g, HDEL f, gossip from each other replica, GCounter incr (stamped), ORSet add (with_crdt stamp)} x replicas (r1 Causal, others Eventual); for each world every value, ordered pair and ordered triple of its pool (pools of all shorter words are sub-pools); plus every value / ordered pair delivered through apply_remote_delta to fresh replicas r1..r4 (= the value / the merge)";
     s.describe_check("enum_worlds2", rule);
     s.describe_check("enum_worlds3", rule);
     s.note(
